@@ -167,8 +167,9 @@ const std::vector<OpSchema>& dl_schema()
 
 constexpr int NDL = 4, NSYM = 6, NHOLD = 2, NVAR = 4, NVAL = 8;
 const char* const VARS[NVAR] = { "NITRO_DLSIM_A", "NITRO_DLSIM_B_long_name_with.dots", "NITRO_DLSIM\x01\xfe", "N" };
-const char* const VALS[NVAL] = { "", "v", "a=b", "  spaced  ", "-dash", "\xc3\xa4\xff\x01", "x;y;z", "0" };
-const char* const DFLTS[3] = { "", "dflt", "other default" };
+const std::string LONG_VALUE(5000, 'L'); // longer than any fixed buffer one might be tempted to use
+const char* const VALS[NVAL] = { "", "v", "a=b", "  spaced  ", "-dash", "\xc3\xa4\xff\x01", "x;y;z", LONG_VALUE.c_str() };
+const char* const DFLTS[3] = { "", "dflt", "0" };
 
 using Sym = nitro::dl::symbol<int(int)>;
 
